@@ -235,4 +235,48 @@ for i in range(ncase):
         stats["with_density"] += 1 if tree[1] else 0
         direct_check(tree, s, f, tname)
     stats["private"] += 1 if tname == "private" else 0
+# ---- a private table whose data differ from the public ones: what the parser takes from the table while parsing (the default
+# density of a one-element formula, the masses behind the '@..n' conversion, the isotopes that exist) is taken from THAT table
+try:
+    T2 = core.PeriodicTable("verif_c01_changed_%d" % seed)
+    mass.init(T2)
+    density.init(T2)
+    T2.Cm._density = 11.1
+    T2.Fe._density = 7.0
+    T2.D._mass = 2.5
+    T2.O.add_isotope(30)
+    T2.O[30]._mass = 30.05
+    stats["changed_private"] = 0
+
+    def note(sig, what, s_):
+        fails.append(dict(signature=sig, what=what, string=s_, table="private (changed data)"))
+    for s_, want in (("Cm", 11.1), ("3Cm", 11.1), ("Fe2", 7.0), ("(Fe)3", 7.0)):
+        f_ = attempt(lambda: formula(s_, table=T2))
+        stats["changed_private"] += 1
+        if isinstance(f_, Exception) or f_.density != want:
+            note("C01:private-table-data:default-density", "formula(%r, table=T) has density %r; T's %s has density %r"
+                 % (s_, f_ if isinstance(f_, Exception) else f_.density, s_.strip("()0123456789"), want), s_)
+    for s_ in ("D2O@1n", "2D2O + H2O@1n", "CD4@0.5n"):
+        f_ = attempt(lambda: formula(s_, table=T2))
+        stats["changed_private"] += 1
+        if isinstance(f_, Exception):
+            note("C01:private-table-data:natural-density", "formula(%r, table=T) raises %r" % (s_, f_), s_)
+            continue
+        nat = sum(c * (T2[a.number].mass) for a, c in f_.atoms.items())
+        iso = sum(c * a.mass for a, c in f_.atoms.items())
+        want = float(s_.split("@")[1].rstrip("n")) * iso / nat
+        if any((getattr(a, "table", None) or a.element.table) != T2.D.table for a in f_.atoms) or abs(f_.density - want) > 1e-12 * want:
+            note("C01:private-table-data:natural-density", "formula(%r, table=T) has density %r; with T's masses (T.D.mass = 2.5) the tag means %r"
+                 % (s_, f_.density, want), s_)
+    f_ = attempt(lambda: formula("H2O[30]", table=T2))
+    stats["changed_private"] += 1
+    if isinstance(f_, Exception) or not any(a is T2.O[30] for a in f_.atoms):
+        note("C01:private-table-data:isotope", "formula('H2O[30]', table=T) gives %r although T defines O[30]" % (f_,), "H2O[30]")
+    f_ = attempt(lambda: formula("H2O[30]"))
+    if not isinstance(f_, Exception):
+        note("C01:malformed-accepted:undefined-isotope", "formula('H2O[30]') on the public table yields %s (only the private table defines O[30])" % f_, "H2O[30]")
+except Exception as e:  # noqa
+    import traceback
+    fails.append(dict(signature="C01:private-table-data:raises", what="the changed-private-table statements raised %s: %s" % (type(e).__name__, e),
+                      string="", trace=traceback.format_exc()[-500:]))
 json.dump(dict(cases=cases, meta=meta, direct_fails=fails, stats=stats), sys.stdout)
